@@ -2,11 +2,14 @@
 Proof: Model/CLane.v (one concurrent lane, every dq_state rmw = the body generated from the source) +
 Proofs/CLane_*.v (width/lock invariant over all interleavings; CLane_order.v: the history invariant that gives the writer-lock
 order) + word-level lemmas (Lane_iface).
-Correspondence: (1) the lanes stress oracle (harness/c01_lanes.c, shared with C01-C05); (2) harness/c04_clane.c records every
-atomic operation on ONE concurrent queue object under schedule perturbation; every successful dq_state write is checked
-against the generated body of its source site inside Coq (CLaneJudge.tr_ok), the successful writes are chained by value
-(old -> new) into the exact global order of the word, and the word-level projection of the proved invariant
-(CLaneJudge.word_ok / owner_ok, sound by Properties_C04.C04_trace_judges_sound) is evaluated on every state of the chain."""
+Correspondence (four parts, each in lanes.run_part; see TRUSTED for how strong each is): (lanes) the stress oracle
+harness/c01_lanes.c shared with C01-C05; (clane) harness/c04_clane.c records every atomic operation on ONE concurrent queue object
+under schedule perturbation; every successful dq_state write is checked against the generated body of its source site inside Coq
+(CLaneJudge.tr_ok, existential over the locals the trace does not show), the successful writes are chained by value (old -> new)
+into the exact global order of the word, and necessary conditions of the proved invariant (CLaneJudge.word_ok / owner_ok; the
+no-false-alarm direction is Properties_C04.C04_trace_judges_sound) are evaluated on every state of the chain; (overtake) the fixed
+schedule of harness/c04_overtake.c; (words) lib/lanewords.py.
+replay(): every failure / mismatch carries the parameters of the run that produced it and is re-executed and re-judged."""
 import os
 import re
 import common
@@ -21,28 +24,46 @@ GEN_MODULES = ["Gen_dqstate", "Gen_lanesites", "Gen_once"]
 LEVEL = "proof"
 COQ_TIMEOUT = 2400
 TRUSTED = [
-    "Model/CLane.v is hand-written control flow (46 program points of dispatch_sync / dispatch_barrier_sync fast and slow paths, "
+    "Model/CLane.v is hand-written control flow (47 program points of dispatch_sync / dispatch_barrier_sync fast and slow paths, "
     "dispatch_[barrier_]async, the redirecting concurrent drain, _dispatch_lane_barrier_complete, _dispatch_lane_drain_non_barriers, "
     "_dispatch_lane_drain_barrier_waiter, _dispatch_lane_non_barrier_complete) around the dq_state bodies generated from the source "
-    "(Gen_dqstate); it is tied to the library by (a) the atomic-site lists of the modelled functions (Gen_lanesites) compared "
-    "inside Coq with the model's site lists, (b) the trace check: every successful dq_state write recorded on a real queue equals "
-    "the generated body of its source site applied to the old value, and the value chain of the word satisfies the proved "
-    "word-level invariant",
+    "(Gen_dqstate). The theorems are about this model. What ties it to the library is weaker than a refinement proof: "
+    "(a) the per-function lists of atomic sites read from the source (Gen_lanesites) equal the model's lists (whole lists for 8 "
+    "functions, prefixes `firstn k` for 5: the rest of those functions are paths outside the model); "
+    "(b) the trace check of recorded runs: every successful dq_state write is what the generated body of ITS SOURCE SITE computes "
+    "from the old value for some admissible value of the locals the trace does not show (CLaneJudge.tr_ok: existential over qos, "
+    "flags and the owned width, whose candidates are derived from the old/new width fields; the unlock / relinquish codes accept any "
+    "pure width change; no theorem is stated about tr_ok; the write is not placed at a program point of CLane), and every state of "
+    "the value chain passes CLaneJudge.word_ok / owner_ok, which are NECESSARY conditions of the proved invariant "
+    "(C04_trace_judges_sound is the no-false-alarm direction only; word_ok bounds the width field from below only; no ghost state "
+    "-- readers in flight -- is reconstructed from the run); "
+    "(c) the API-level oracles (overlap counters, run counters, stuck watchdog) on the same runs. "
+    "The control flow between sites (which program point follows which, e.g. the branches of the drainer's head test) is tied by "
+    "nothing beyond (a); site codes 19-22 of the trace check (invoke_finish, dispatch_apply's two sites, override-only wakeups) "
+    "have no program point in CLane",
     "the tail tests of the three fast paths (plain loads of dq_items_tail, program points S_tail / B_tail / A_tail of the model) are "
     "not atomic sites and not dq_state transitions, so neither (a) nor (b) sees them; the one of the barrier-sync fast path is "
     "exercised by the fixed schedule of harness/c04_overtake.c (it fails when the test is removed)",
-    "atomicity: an os_atomic_rmw_loop is one step (its successful compare-exchange); interleaving semantics is sequentially "
-    "consistent on the single word dq_state and the item list (memory-order strength is C05's subject)",
-    "scope of the model: one DISPATCH_QUEUE_CONCURRENT queue of width 2..4094 targeting a root queue (role BASE_ANON, redirecting "
-    "drain); not modelled: suspension (C06), target hierarchies (C03), dispatch_async_and_wait, workloops, dispatch_apply's extra "
-    "reservations (their two sites are in the trace check), override-only wakeups (max_qos only)",
+    "atomicity: an os_atomic_rmw_loop is one step (its successful compare-exchange); the MPSC push (tail exchange + link) is one "
+    "step, so the drainer's wait for an enqueuer's link (os_mpsc_get_next spin) does not exist in the model: 'every program point "
+    "other than a parked sync wait has an enabled step' (C04_no_thread_stuck) is a statement about the model with this caveat; "
+    "interleaving semantics is sequentially consistent on the single word dq_state and the item list (memory-order strength is "
+    "C05's subject)",
+    "scope of the model: one DISPATCH_QUEUE_CONCURRENT queue of width 2..4094 targeting a root queue directly (role BASE_ANON, "
+    "redirecting drain); FLAT CLIENTS: a call begins only on a thread that is outside any call (begin needs pc Idle), so an item "
+    "that submits to its own queue from inside its callout (drainer = enqueuer, nested dispatch_sync on the same queue) is outside "
+    "'all interleavings'; also not modelled: suspension / inactive queues (C06), non-root targets and hierarchies (C03), "
+    "dispatch_async_and_wait, DISPATCH_BLOCK_BARRIER blocks, workloops, dispatch_apply's extra reservations (their two sites are "
+    "only in the trace check), override-only wakeups (max_qos only; _dispatch_queue_need_override is a free boolean of the model)",
     "the plain atomic operations of the modelled functions (xor / and of IN_BARRIER, add of WIDTH_INTERVAL, xor of DIRTY) use "
     "constants written in Model/CLane.v; the trace check compares them with the operands recorded at their source lines",
     "src2v translator (clang AST -> Gallina), validated on the functions that have differential harnesses (C06, C12, C18)",
 ]
 ASSUMPTIONS = ["the stress runs explore the schedules the OS and the perturbation hook produce; the proof, not the runs, covers all "
                "interleavings of the model",
-               "thread lock values (gettid & 0x3fffffff) are distinct and non-zero"]
+               "thread lock values (gettid & 0x3fffffff) are distinct and non-zero",
+               "fair termination is not claimed: the theorems are safety, enabledness of every non-waiting program point of the "
+               "model, and 'a state in which nothing can move is drained'"]
 
 FILES = {1: "src/queue.c", 2: "src/inline_internal.h", 3: "src/apply.c"}
 # (function, kind of atomic operation) -> site code of CLaneJudge.tr_ok; kinds: 5 weak CAS, 6 add, 7 sub, 8 and, 10 xor
@@ -115,13 +136,21 @@ def new_of(e):
 
 
 def run_harness(seed, rounds, permille, scale, scn):
+    """one recording run; returns (stdout or None, problem or None, notes). A wall-clock expiry alone is never a verdict: the run
+    is repeated once, alone, with ten times the limit (the harness has its own progress-based watchdog for real hangs)."""
     exe, msg = common.build_harness("c04_clane", ["c04_clane.c"], whitebox=True, extra=["-I" + common.VERIF + "/harness"])
     if exe is None:
-        raise RuntimeError("harness build failed: " + msg)
-    r = common.run([exe, str(seed), str(rounds), str(permille), str(scale), scn], timeout=600)
+        return None, "harness build failed: " + msg[-1500:], []
+    notes = []
+    cmd = [exe, str(seed), str(rounds), str(permille), str(scale), scn]
+    r = common.run(cmd, timeout=600)
+    if r.returncode == 124:
+        notes.append("recording run %s seed %d exceeded 600 s (machine load?): repeated alone with 6000 s" % (scn, seed))
+        r = common.run(cmd, timeout=6000)
     if r.returncode != 0:
-        raise RuntimeError("harness failed rc=%s: %s" % (r.returncode, (r.stderr or "")[-1500:]))
-    return r.stdout
+        return None, "recording run %s seed %d rounds %d permille %d scale %d ended with rc %s: %s" % (
+            scn, seed, rounds, permille, scale, r.returncode, ((r.stderr or "") + (r.stdout or "")[-300:])[-800:]), notes
+    return r.stdout, None, notes
 
 
 def chain(writes, start):
@@ -180,20 +209,38 @@ def chain(writes, start):
     return [writes[i] for i in order], None
 
 
-def analyse(text, label, stats):
+def analyse(text, label, stats, expect_rounds=None):
     """returns (failures, mismatches, trcases, wordcases, ownercases) for one harness run"""
     other, per = conc.parse_dump(text)
     fails, mism = [], []
     off_state = None
+    end = None
     rounds = {}
     for l in other:
         f = l.split()
         if f[0] == "O":
             off_state = int(f[2])
-        elif f[0] == "R":
+        elif f[0] == "END" and len(f) >= 3:
+            end = (int(f[1]), int(f[2]))
+        elif f[0] == "R" and len(f) >= 14:
             rounds[int(f[1])] = dict(W=int(f[2]), n=int(f[3]), total=int(f[4]), ran=int(f[5]), st0=int(f[6]), st1=int(f[7]),
                                      idle=int(f[8]), overlap=int(f[9]), bad=int(f[10]), syncret=int(f[11]), maxr=int(f[12]), scn=f[13])
     trc, wordc, ownc = [], [], []
+    # ---- integrity of the output: a truncated or empty dump must not pass silently
+    nev = sum(len(v) for v in per.values())
+    if off_state is None:
+        mism.append({"what": "recording run printed no layout line (empty or truncated output)", "detail": {"label": label}})
+        return fails, mism, trc, wordc, ownc
+    if end is None:
+        mism.append({"what": "recording run output has no END line (truncated output)", "detail": {"label": label, "rounds_seen": len(rounds)}})
+    elif end[0] != len(rounds) or end[1] != nev:
+        mism.append({"what": "recording run output is inconsistent with its END line (truncated output)",
+                     "detail": {"label": label, "end": end, "rounds_seen": len(rounds), "events_seen": nev}})
+    if expect_rounds is not None and len(rounds) != expect_rounds and not any(not R["idle"] for R in rounds.values()):
+        mism.append({"what": "recording run did %d of %d rounds without reporting a stuck round" % (len(rounds), expect_rounds),
+                     "detail": {"label": label}})
+    if not rounds:
+        mism.append({"what": "recording run recorded no round at all", "detail": {"label": label}})
     for rd, R in sorted(rounds.items()):
         key0 = "%s:round%d" % (label, rd)
         stats["rounds"] = stats.get("rounds", 0) + 1
@@ -290,9 +337,22 @@ def analyse(text, label, stats):
     return fails, mism, trc, wordc, ownc
 
 
+def _coq(name, imports, body):
+    """one evaluation inside Coq; the case file carries the pid (two checks may run at once); a wall-clock expiry is repeated
+    once with ten times the limit before it counts. Returns (values or None, problem text)."""
+    name = "%s_%d" % (name, os.getpid())
+    ok, vals, raw = driver.coq_eval(name, imports, body, timeout=900)
+    if not ok and "TIMEOUT after" in raw:
+        ok, vals, raw = driver.coq_eval(name, imports, body, timeout=9000)
+    if not ok or len(vals) != 1:
+        return None, raw[-1500:]
+    return vals, ""
+
+
 def coq_judge(ctx, trc, wordc, ownc):
-    """evaluates the judges inside Coq; returns list of mismatches"""
+    """evaluates the judges inside Coq; returns (mismatches, counts of what was actually judged)"""
     mism = []
+    judged = {"transitions": 0, "words": 0, "owner_words": 0}
     imports = ["Word", "Gen_consts", "Gen_dqstate", "DqFields", "CLane", "CLaneJudge"]
 
     def zl(xs):
@@ -300,6 +360,7 @@ def coq_judge(ctx, trc, wordc, ownc):
     # (i) transitions: first code of each case; the cases that fail are tried again with their alternative codes
     todo = [(i, 0) for i in range(len(trc))]
     rnd = 0
+    done = set()
     while todo:
         nxt = []
         for c0 in range(0, len(todo), 4000):
@@ -307,10 +368,18 @@ def coq_judge(ctx, trc, wordc, ownc):
             body = "Definition cases : list (list Z) := [\n" + ";\n".join(
                 zl([trc[i]["codes"][j], trc[i]["W"], trc[i]["self"], trc[i]["old"], trc[i]["new"]] + trc[i]["ks"]) for i, j in part) + "].\n"
             body += "Eval vm_compute in failing tr_case cases 0.\n"
-            ok, vals, raw = driver.coq_eval("c04_tr_%d_%d" % (rnd, c0), imports, body, timeout=900)
-            if not ok or len(vals) != 1:
-                raise RuntimeError("coq evaluation of the transition judge failed: " + raw[-1500:])
-            for k in driver.ints(vals[0]):
+            vals, prob = _coq("c04_tr_%d_%d" % (rnd, c0), imports, body)
+            if vals is None:
+                mism.append({"what": "the transition judge (CLaneJudge.tr_ok) could not be evaluated on a batch of %d recorded "
+                                     "transitions: they are NOT checked" % len(part), "detail": {"coq": prob, "run": trc[part[0][0]]["info"].get("run")}})
+                continue
+            bad = driver.ints(vals[0])
+            if any(k < 0 or k >= len(part) for k in bad):
+                mism.append({"what": "the transition judge returned an index outside its batch", "detail": {"coq": vals[0][:300]}})
+                continue
+            for i, j in part:
+                done.add(i)
+            for k in bad:
                 i, j = part[k]
                 if j + 1 < len(trc[i]["codes"]):
                     nxt.append((i, j + 1))
@@ -319,155 +388,358 @@ def coq_judge(ctx, trc, wordc, ownc):
                                  "(CLaneJudge.tr_ok, site code %s)" % trc[i]["codes"], "detail": trc[i]["info"]})
         todo = nxt
         rnd += 1
+    judged["transitions"] = len(done)
     # (ii) the word chain and the owner words
     if wordc:
         body = ""
         for n, c in enumerate(wordc):
             body += "Definition w%d : list Z := %s.\n" % (n, zl(c["words"]))
         body += "Eval vm_compute in [%s].\n" % "; ".join("failing (word_ok %d) w%d 0" % (c["W"], n) for n, c in enumerate(wordc))
-        ok, vals, raw = driver.coq_eval("c04_words", imports, body, timeout=900)
-        if not ok or len(vals) != 1:
-            raise RuntimeError("coq evaluation of the word judge failed: " + raw[-1500:])
-        lists = re.findall(r"\[([^\[\]]*)\]", vals[0])
-        for c, l in zip(wordc, lists):
-            bad = driver.ints(l)
-            if bad:
-                d = dict(c["info"])
-                d.update({"position": bad[0], "word": c["words"][bad[0]], "width": c["W"], "violations": len(bad)})
-                mism.append({"what": "a state of the dq_state value chain violates the proved width accounting (CLaneJudge.word_ok): "
-                             "width field below its base, IN_BARRIER without the exact full width or without an owner", "detail": d})
+        vals, prob = _coq("c04_words", imports, body)
+        lists = re.findall(r"\[([^\[\]]*)\]", vals[0]) if vals is not None else []
+        if vals is None or len(lists) != len(wordc):
+            mism.append({"what": "the word judge (CLaneJudge.word_ok) could not be evaluated on the %d value chains: they are NOT checked"
+                                 % len(wordc), "detail": {"coq": prob or vals[0][:300], "run": wordc[0]["info"].get("run")}})
+        else:
+            judged["words"] = sum(len(c["words"]) for c in wordc)
+            for c, l in zip(wordc, lists):
+                bad = driver.ints(l)
+                if bad:
+                    d = dict(c["info"])
+                    d.update({"position": bad[0], "word": c["words"][bad[0]] if bad[0] < len(c["words"]) else None, "width": c["W"],
+                              "violations": len(bad)})
+                    mism.append({"what": "a state of the dq_state value chain violates the word-level projection of the proved width accounting "
+                                 "(CLaneJudge.word_ok): width field below its base, IN_BARRIER without the exact full width or without an owner",
+                                 "detail": d})
     if ownc:
         body = "Definition cases : list (list Z) := [\n" + ";\n".join(zl([c["w"], c["self"]]) for c in ownc) + "].\n"
         body += "Eval vm_compute in failing (fun c => match c with [w; t] => owner_ok w t | _ => false end) cases 0.\n"
-        ok, vals, raw = driver.coq_eval("c04_owner", imports, body, timeout=900)
-        if not ok or len(vals) != 1:
-            raise RuntimeError("coq evaluation of the owner judge failed: " + raw[-1500:])
-        for k in driver.ints(vals[0]):
-            mism.append({"what": "a thread wrote dq_state as the barrier owner (barrier completion / right after its barrier item) "
-                         "while the word did not name it as the owner with IN_BARRIER set (CLaneJudge.owner_ok)",
-                         "detail": ownc[k]["info"]})
-    return mism
+        vals, prob = _coq("c04_owner", imports, body)
+        if vals is None:
+            mism.append({"what": "the owner judge (CLaneJudge.owner_ok) could not be evaluated on %d words: they are NOT checked" % len(ownc),
+                         "detail": {"coq": prob, "run": ownc[0]["info"].get("run")}})
+        else:
+            judged["owner_words"] = len(ownc)
+            for k in driver.ints(vals[0]):
+                if 0 <= k < len(ownc):
+                    mism.append({"what": "a thread wrote dq_state as the barrier owner (barrier completion / right after its barrier item) "
+                                 "while the word did not name it as the owner with IN_BARRIER set (CLaneJudge.owner_ok)",
+                                 "detail": ownc[k]["info"]})
+    return mism, judged
 
 
-def clane_runs(ctx):
+def clane_plan(ctx):
     quick = ctx.tier == "quick"
     plan = [("overflow", ctx.seed * 1000 + 1, 1, 0, 1)]               # fixed corpus first: the width-field overflow witness
     nseeds = 3 if quick else 10
     for i in range(nseeds):
         plan.append(("mix", ctx.seed * 1000 + 10 + i, 4 if quick else 10, [0, 200, 450][i % 3], 1 if quick else 4))
+    return plan
+
+
+def clane_runs(ctx, plan=None):
+    """the trace check on the given recording runs (default: the plan of the tier). Every failure / mismatch carries the
+    parameters of its run ("run") so that replay re-executes exactly that run. Nothing collected is ever dropped."""
     fails, mism, trc, wordc, ownc, stats = [], [], [], [], [], {}
-    for scn, seed, rounds, pm, scale in plan:
-        text = run_harness(seed, rounds, pm, scale, scn)
-        f, m, t, w, o = analyse(text, "%s-seed%d-pm%d" % (scn, seed, pm), stats)
+    for scn, seed, rounds, pm, scale in (plan if plan is not None else clane_plan(ctx)):
+        runp = {"scenario": scn, "seed": seed, "rounds": rounds, "permille": pm, "scale": scale}
+        label = "%s-seed%d-pm%d" % (scn, seed, pm)
+        text, prob, notes = run_harness(seed, rounds, pm, scale, scn)
+        for n in notes:
+            stats["load_retries"] = stats.get("load_retries", 0) + 1
+            ctx.notes.append(n)
+        if text is None:
+            mism.append({"what": "recording run failed: nothing of it is checked", "detail": {"label": label, "problem": prob, "run": runp}})
+            continue
+        try:
+            f, m, t, w, o = analyse(text, label, stats, expect_rounds=rounds)
+        except Exception:
+            import traceback
+            mism.append({"what": "the output of a recording run could not be analysed (malformed or truncated)",
+                         "detail": {"label": label, "problem": traceback.format_exc()[-800:], "run": runp}})
+            continue
         for x in f:
-            x.update({"scenario": scn, "seed": seed, "rounds": rounds, "permille": pm, "scale": scale})
+            x.update(runp)
+            x["run"] = runp
+            x["part"] = "clane"
+        for x in m:
+            x.setdefault("detail", {})
+            if isinstance(x["detail"], dict):
+                x["detail"]["run"] = runp
+        for x in t + w + o:
+            x["info"]["run"] = runp
         fails += f
         mism += m
         trc += t
         wordc += w
         ownc += o
+    judged = {"transitions": 0, "words": 0, "owner_words": 0}
     try:
-        mism += coq_judge(ctx, trc, wordc, ownc)
-    except Exception as e:        # e.g. the judges no longer compile against the regenerated bodies: keep the API-level failures
-        mism.append({"what": "the Coq judges (CLaneJudge) could not be evaluated on the recorded transitions",
-                     "detail": str(e)[-1500:]})
+        m, judged = coq_judge(ctx, trc, wordc, ownc)
+        mism += m
+    except Exception:        # keep everything collected so far
+        import traceback
+        mism.append({"what": "the Coq judges (CLaneJudge) crashed on the recorded transitions", "detail": traceback.format_exc()[-1500:]})
+    if stats.get("rounds", 0) == 0 or not trc:
+        mism.append({"what": "the trace check recorded no round / no dq_state transition at all: nothing ties CLane to the code in this run",
+                     "detail": {"rounds": stats.get("rounds", 0), "transitions": len(trc)}})
+    for x in mism:
+        x["part"] = "clane"
+    stats["judged"] = judged
     return fails, mism, trc, wordc, ownc, stats
 
 
-def overtake_runs(ctx, stats):
-    """fixed corpus: the sync fast path overtaking an earlier async item of the same thread (witness of /repo 43b9c73)"""
+OVERTAKE_PAT = (r"OVERTAKE (\w+) o_held=(\d) u_held=(\d) idle=(\d+) state_locked=(\d+) state_after_x2=(\d+) state_before_sync=(\d+) "
+                r"b_ran=(\d) b_ran_before_x2=(\d)")
+
+
+def overtake_runs(ctx, stats, kinds=("concurrent", "serial")):
+    """fixed corpus: the sync fast path overtaking an earlier async item of the same thread (witness of /repo 43b9c73).
+    The verdict does not depend on timing: on a correct library the sync item waits for the held enqueuer however long
+    that takes; on a faulty one it runs while the enqueuer is still held."""
     exe, msg = common.build_harness("c04_overtake", ["c04_overtake.c"], whitebox=True, extra=["-I" + common.VERIF + "/harness"])
-    if exe is None:
-        raise RuntimeError("harness build failed: " + msg)
     fails, mism = [], []
-    for kind in ("concurrent", "serial"):
-        pat = (r"OVERTAKE (\w+) o_held=(\d) u_held=(\d) idle=(\d+) state_locked=(\d+) state_after_x2=(\d+) state_before_sync=(\d+) "
-               r"b_ran=(\d) b_ran_before_x2=(\d)")
+    if exe is None:
+        return fails, [{"what": "overtake witness: harness build failed", "detail": msg[-1500:], "part": "overtake"}]
+    for kind in kinds:
         m, r, reached = None, None, False
         for attempt in range(5):        # the schedule is forced with holds inside the hook; give a busy machine several tries
-            r = common.run([exe, kind], timeout=300)
-            m = re.search(pat, r.stdout)
+            r = common.run([exe, kind], timeout=300 if attempt < 4 else 3000)
+            m = re.search(OVERTAKE_PAT, r.stdout)
             reached = bool(m) and r.returncode == 0 and m.group(2) == "1" and m.group(3) == "1" and m.group(4) == m.group(7)
             if reached or (m and m.group(9) == "1"):
                 break
+        stats["overtake_%s_attempts" % kind] = attempt + 1
         if r.returncode != 0 or not m:
-            mism.append({"what": "overtake witness did not run", "detail": (r.stdout + r.stderr)[-800:]})
+            mism.append({"what": "overtake witness did not run", "detail": {"kind": kind, "output": (r.stdout + r.stderr)[-800:]}, "part": "overtake"})
             continue
         if not reached and m.group(9) != "1":
             mism.append({"what": "overtake witness: the forced schedule (idle word with two items queued) was not established in 5 attempts, "
-                                 "so the fast-path order clause was not exercised in this run", "detail": r.stdout[-400:]})
+                                 "so the fast-path order clause was not exercised in this run",
+                         "detail": {"kind": kind, "output": r.stdout[-400:]}, "part": "overtake"})
         stats["overtake_%s_schedule_reached" % kind] = int(reached)
         if m.group(8) != "1":
-            mism.append({"what": "overtake witness: the sync item never ran", "detail": r.stdout[-400:]})
+            mism.append({"what": "overtake witness: the sync item never ran", "detail": {"kind": kind, "output": r.stdout[-400:]}, "part": "overtake"})
         if m.group(9) == "1":
             fails.append({"key": "overtake:" + kind,
                           "what": "%s ran before an item the same thread had submitted earlier with dispatch_async (%s queue; the word was "
                                   "idle while two items sat on the list)" % ("dispatch_barrier_sync" if kind == "concurrent" else "dispatch_sync", kind),
-                          "scenario": "overtake", "kind": kind, "output": r.stdout.strip()})
+                          "scenario": "overtake", "kind": kind, "output": r.stdout.strip(), "part": "overtake"})
     return fails, mism
 
 
-def correspond(ctx):
-    res = lanes.run(ctx, "C04")
+WORDS_QUICK = ["concurrent_barriers", "concurrent_each_api", "apply", "set_width"]
+
+
+def words_part(ctx):
+    # word-transition conformance of the shared lane scenarios (quick tier: without the width_exhaustion scenario, whose many
+    # distinct width states dominate the cost; CLane's own trace check covers the width arithmetic on every run)
+    return lanewords.run(ctx, "C04", scenarios=None if ctx.tier == "thorough" else WORDS_QUICK)
+
+
+def lanes_part(ctx):
+    r = lanes.run(ctx, "C04")
+    scale = 1 if ctx.tier == "quick" else 4
+    for f in r.get("failures", []):
+        f["scale"] = scale              # lanes.run's scale for this tier: replay re-runs with the same one
+    return r
+
+
+def clane_part(ctx):
     fails, mism, trc, wordc, ownc, stats = clane_runs(ctx)
-    f2, m2 = overtake_runs(ctx, stats)
-    fails = f2 + fails
-    mism = mism + m2
-    res["failures"] = (fails + res.get("failures", []))[:20]
-    res["mismatches"] = (res.get("mismatches", []) + mism)[:20]
-    res["evaluations"] = res.get("evaluations", 0) + len(trc)
+    judged = stats.get("judged", {})
     shapes = set((tuple(t["codes"]), t["W"], wq(t["old"]), (t["old"] >> 54) & 1, (t["old"] >> 40) & 1) for t in trc)
-    res["distinct_nontrivial"] = res.get("distinct_nontrivial", 0) + len(shapes)
-    res["traces_validated_against_impl"] = len(trc)
-    res["rule"] = res.get("rule", "") + (
-        " || fixed schedule (harness/c04_overtake.c, concurrent and serial queue): a worker about to unlock after seeing an empty "
-        "list and a first enqueuer before its wakeup are held with the hook, a second enqueuer pushes without wakeup, the unlock "
-        "commits the idle word; the following dispatch_barrier_sync / dispatch_sync of the second enqueuer must not run before its "
-        "own earlier item || trace check (harness/c04_clane.c): one concurrent queue per round, width 4094 or 2..8 (dispatch_queue_set_width on the "
+    rule = (
+        "trace check (harness/c04_clane.c): one concurrent queue per round, width 4094 or 2..8 (dispatch_queue_set_width on the "
         "idle queue), 2..8 client threads with a random mix of dispatch_sync / barrier_sync / async / barrier_async / apply in four "
         "profiles, perturbation 0/20/45 percent of atomic operations plus aimed delays after writes of dq_state; fixed corpus: the "
-        "width-overflow witness (W asyncs and 3..6 sync waiters behind a barrier, then a barrier); every successful dq_state write "
-        "(%d) is compared inside Coq with the body generated from its source site; the writes are chained by value into the exact "
-        "order of the word and CLaneJudge.word_ok is evaluated on all %d states; owner_ok on %d writes made by barrier owners; "
-        "distinct = distinct (site, width, width field, IN_BARRIER, PENDING_BARRIER) of checked transitions") % (
-            len(trc), sum(len(c["words"]) for c in wordc), len(ownc))
-    res["samples"] = res.get("samples", [])[:4] + [t["info"] for t in trc[:3]] + [t["info"] for t in trc if t["codes"][0] in (10, 15, 8)][:3]
-    dist = res.get("distribution", {})
-    dist.update(stats)
-    res["distribution"] = dist
-    # word-transition conformance of the shared lane scenarios (quick tier: without the width_exhaustion scenario, whose many
-    # distinct width states dominate the cost; CLane's own trace check above covers the width arithmetic on every run)
-    scen = None if ctx.tier == "thorough" else ["concurrent_barriers", "concurrent_each_api", "apply", "set_width"]
-    label, words = lanes.run_part("words", lambda c: lanewords.run(c, "C04", scenarios=scen), ctx)
-    res["evaluations"] = res.get("evaluations", 0) + int(words.get("evaluations", 0))
-    res["mismatches"] = (res.get("mismatches", []) + [dict(m, part="words") if isinstance(m, dict) else m for m in words.get("mismatches", [])])[:20]
-    res["failures"] = (res.get("failures", []) + [dict(f, part="words") for f in words.get("failures", [])])[:20]
-    res["rule"] += " || [words] " + words.get("rule", "")
-    res["distribution"]["words"] = words.get("distribution", {})
+        "width-overflow witness (W asyncs and 3..6 sync waiters behind a barrier, then a barrier). What is checked, and how strong it "
+        "is: (1) every successful dq_state write (%d recorded, %d judged) is accepted by CLaneJudge.tr_ok for its source site: the "
+        "new value is what the body generated from that source site computes from the old value for SOME admissible value of the "
+        "locals the trace does not show (qos, flags, and the width the drainer owns, with candidates derived from the old/new "
+        "width fields themselves; for the unlock / relinquish sites any pure width change passes) -- a check of the generated bodies "
+        "against the running code, site by site; it does not place the write at a program point of CLane and no theorem is stated "
+        "about tr_ok; site codes 19-22 (invoke_finish, the two dispatch_apply sites, override-only wakeups) have no program point "
+        "in CLane; (2) the writes are chained by value into the exact order of the word and CLaneJudge.word_ok is evaluated on %d "
+        "states: a NECESSARY condition only (Properties_C04.C04_trace_judges_sound: every reachable model state passes; not the "
+        "converse): the width field is at least its base, IN_BARRIER comes with the exact full width and an owner; it is a lower "
+        "bound on the width field, no ghost state (readers in flight) is reconstructed from the run; (3) owner_ok on %d words seen by "
+        "barrier owners; (4) the control flow between the sites (which program point follows which) is tied only by the per-function "
+        "site lists (C04_model_sites_match, prefixes for 5 of 13 functions) and by 'after a reader item the thread's next write is "
+        "_dispatch_lane_non_barrier_complete'; distinct = distinct (site, width, width field, IN_BARRIER, PENDING_BARRIER) of "
+        "judged transitions") % (len(trc), judged.get("transitions", 0), judged.get("words", 0), judged.get("owner_words", 0))
+    return {"evaluations": judged.get("transitions", 0), "distinct_nontrivial": len(shapes), "rule": rule,
+            "traces_validated_against_impl": judged.get("transitions", 0),
+            "samples": [t["info"] for t in trc[:3]] + [t["info"] for t in trc if t["codes"][0] in (10, 15, 8)][:3],
+            "distribution": stats, "mismatches": mism, "failures": fails}
+
+
+def overtake_part(ctx):
+    stats = {}
+    fails, mism = overtake_runs(ctx, stats)
+    n = sum(stats.get("overtake_%s_schedule_reached" % k, 0) for k in ("concurrent", "serial"))
+    return {"evaluations": n, "distinct_nontrivial": n, "distribution": stats, "mismatches": mism, "failures": fails, "samples": [],
+            "rule": "fixed schedule (harness/c04_overtake.c, concurrent and serial queue): a worker about to unlock after seeing an empty "
+                    "list and a first enqueuer before its wakeup are held with the hook, a second enqueuer pushes without wakeup, the "
+                    "unlock commits the idle word; the following dispatch_barrier_sync / dispatch_sync of the second enqueuer must not "
+                    "run before its own earlier item (the only tie of the model's tail test B_tail: a plain load, invisible to the "
+                    "site lists and to the trace check); evaluations = variants in which the forced schedule was established"}
+
+
+PARTS = [("lanes", lanes_part), ("clane", clane_part), ("overtake", overtake_part), ("words", words_part)]
+
+
+def correspond(ctx):
+    # every part runs in lanes.run_part: a part that crashes is a broken tie of that part and never discards what the
+    # other parts (or the part itself, see clane_runs) collected; lanes.merge adds the floor "a part that judged nothing"
+    res = lanes.merge([lanes.run_part(label, fn, ctx) for label, fn in PARTS])
+    tv = [d.get("judged", {}).get("transitions", 0) for l, d in res["distribution"].items() if l == "clane" and isinstance(d, dict)]
+    res["traces_validated_against_impl"] = tv[0] if tv else 0
+    res["failures"] = res["failures"][:20]
+    res["mismatches"] = res["mismatches"][:20]
+    for f in res["failures"] + [m for m in res["mismatches"] if isinstance(m, dict)]:
+        f.setdefault("tier", ctx.tier)
     return res
 
 
+# ---------------------------------------------------------------------------------------------------------------- replay
+def _replay_lanes(ctx, f):
+    if not all(k in f for k in ("scenario", "seed", "permille")):
+        return None
+    exe, msg = common.build_harness("c01_lanes", ["c01_lanes.c"], whitebox=False, extra=["-I" + common.VERIF + "/harness"])
+    if exe is None:
+        print("  c01_lanes does not build:", msg[-400:])
+        return True
+    cmd = [exe, str(f["seed"]), f["scenario"], str(f["permille"]), str(f.get("scale", 1))]
+    r = common.run(cmd, timeout=600)
+    if r.returncode == 124:
+        r = common.run(cmd, timeout=6000)
+    again = [l for l in r.stdout.split("\n") if l.startswith("FAIL C04 ")]
+    died = r.returncode not in (0, 1, 3)
+    print("  re-run of %s seed %s perturbation %s scale %s:" % (f["scenario"], f["seed"], f["permille"], f.get("scale", 1)),
+          ("; ".join(again)[:600] if again else ("client died rc %s" % r.returncode if died else "does not reproduce")))
+    return bool(again) or died
+
+
+def _replay_clane(ctx, runp):
+    plan = [(runp["scenario"], runp["seed"], runp["rounds"], runp["permille"], runp["scale"])]
+    fails, mism, trc, wordc, ownc, stats = clane_runs(ctx, plan)
+    for x in fails[:5]:
+        print("  re-judged failure:", x["what"])
+    for x in mism[:5]:
+        print("  re-judged mismatch:", x["what"], str(x.get("detail"))[:400])
+    if not fails and not mism:
+        print("  re-run of %s: %d transitions, %d words judged: does not reproduce" % (
+            runp, stats.get("judged", {}).get("transitions", 0), stats.get("judged", {}).get("words", 0)))
+    return bool(fails or mism)
+
+
 def replay(ctx, obj):
-    rc = lanes.replay(ctx, obj)
-    for f in obj.get("failures", []):
-        if f.get("scenario") == "overtake":
-            print("recorded:", f.get("what"))
-            f2, m2 = overtake_runs(ctx, {})
-            print("  re-run: %d failures" % len(f2))
-            for x in f2:
-                print("   ", x["output"])
-            if f2:
-                rc = 1
-            continue
-        if "scenario" in f and f.get("scenario") in ("mix", "overflow"):
-            print("recorded:", f.get("what"))
-            text = run_harness(f["seed"], f["rounds"], f["permille"], f["scale"], f["scenario"])
-            f2, m2, t, w, o = analyse(text, f.get("label", "replay"), {})
-            print("  re-run: %d failures, %d mismatches" % (len(f2), len(m2)))
-            for x in f2[:5]:
-                print("   ", x["what"])
-            for x in m2[:3]:
-                print("   ", x["what"], x.get("detail"))
-            if f2 or m2:
-                rc = 1
-    return rc
+    """re-executes every recorded entry with its recorded parameters against the current build and re-judges it.
+    rc 1: something reproduces; 0: everything that could be executed was executed and nothing reproduces; 2: nothing executable."""
+    import sys
+    if isinstance(obj.get("seed"), int):
+        ctx.seed = obj["seed"]
+    executed, reproduced, skipped = 0, 0, []
+    done_runs, done_kinds = set(), set()
+    entries = [("failure", f) for f in obj.get("failures", [])]
+    for b in obj.get("broken", []):
+        entries.append((b.get("what", "?") if isinstance(b, dict) else "?", b.get("detail") if isinstance(b, dict) else b))
+
+    def runp_of(d):
+        if isinstance(d, dict):
+            if isinstance(d.get("run"), dict):
+                return d["run"]
+            if isinstance(d.get("detail"), dict) and isinstance(d["detail"].get("run"), dict):
+                return d["detail"]["run"]
+        return None
+
+    for kind, d in entries:
+        what = d.get("what") if isinstance(d, dict) else str(d)
+        print("recorded (%s): %s" % (kind, str(what)[:300]))
+        tier0 = ctx.tier
+        if isinstance(d, dict) and d.get("tier") in ("quick", "thorough"):
+            ctx.tier = d["tier"]
+        try:
+            part = d.get("part") if isinstance(d, dict) else None
+            rp = runp_of(d)
+            if kind == "build":
+                print("  the build of the library is redone by the replay driver before this point: it succeeded now")
+                executed += 1
+            elif kind == "translation":
+                errs = [e for e in common.run_src2v() if any(m in e for m in GEN_MODULES) or "Gen_" not in e]
+                executed += 1
+                if errs:
+                    reproduced += 1
+                    print("  translation still fails:", errs[0][:400])
+                else:
+                    print("  does not reproduce (the translator accepts the tree)")
+            elif kind == "proof":
+                if "proof" not in done_kinds:
+                    done_kinds.add("proof")
+                    pr = driver.prove(sys.modules[__name__], ctx)
+                    executed += 1
+                    if pr["errors"] or not pr["ok"]:
+                        reproduced += 1
+                        print("  the proof still does not check:", (pr["errors"] or ["?"])[0][:500])
+                    else:
+                        print("  does not reproduce: %d of %d obligations discharged" % (pr["discharged"], pr["obligations"]))
+            elif rp is not None and (part in (None, "clane")):
+                key = tuple(sorted(rp.items()))
+                if key not in done_runs:
+                    done_runs.add(key)
+                    executed += 1
+                    reproduced += int(_replay_clane(ctx, rp))
+            elif part == "overtake" or (isinstance(d, dict) and d.get("scenario") == "overtake"):
+                kinds = (d.get("kind"),) if d.get("kind") in ("concurrent", "serial") else (
+                    (d["detail"]["kind"],) if isinstance(d.get("detail"), dict) and d["detail"].get("kind") in ("concurrent", "serial")
+                    else ("concurrent", "serial"))
+                if ("overtake", kinds) not in done_runs:
+                    done_runs.add(("overtake", kinds))
+                    f2, m2 = overtake_runs(ctx, {}, kinds)
+                    executed += 1
+                    for x in f2:
+                        print("  re-judged failure:", x["what"], "|", x["output"])
+                    for x in m2:
+                        print("  re-judged mismatch:", x["what"])
+                    if f2 or m2:
+                        reproduced += 1
+                    else:
+                        print("  does not reproduce")
+            elif part == "lanes" or (isinstance(d, dict) and part is None and str(d.get("key", "")).startswith("C04:")):
+                r = _replay_lanes(ctx, d)
+                if r is None:
+                    skipped.append(what)
+                else:
+                    executed += 1
+                    reproduced += int(r)
+            elif part in ("words", "lanes", "clane", "overtake") or kind == "correspondence":
+                # no finer re-execution recorded for this entry: run the whole part again with the recorded seed and tier
+                labels = [part] if part in dict(PARTS) else [l for l, _ in PARTS]
+                for label in labels:
+                    if ("part", label) in done_runs:
+                        continue
+                    done_runs.add(("part", label))
+                    l2, res = lanes.run_part(label, dict(PARTS)[label], ctx)
+                    executed += 1
+                    bad = res.get("failures", []) + res.get("mismatches", [])
+                    for x in bad[:5]:
+                        print("  re-judged [%s]:" % label, str(x.get("what") if isinstance(x, dict) else x)[:400])
+                    if bad:
+                        reproduced += 1
+                    else:
+                        print("  part %s re-run (%s evaluations): does not reproduce" % (label, res.get("evaluations")))
+            else:
+                skipped.append(what)
+        finally:
+            ctx.tier = tier0
+    for w in skipped:
+        print("not executable from this file (only a full ./check C04 re-establishes it):", str(w)[:300])
+    if reproduced:
+        print("REPRODUCES: %d of %d executed entries" % (reproduced, executed))
+        return 1
+    if executed:
+        print("does not reproduce (%d entries executed%s)" % (executed, ", %d not executable" % len(skipped) if skipped else ""))
+        return 0
+    print("nothing in this replay file could be executed")
+    return 2
